@@ -2698,6 +2698,11 @@ bool table_has_caption(token * t) {
 		if (t->type == PAIR_BRACKET) {
 			t = t->next;
 
+			if (t && t->type == PAIR_PAREN) {
+				// `[text](url)` is an inline link in an ordinary paragraph, not a caption
+				return false;
+			}
+
 			if (t && t->next &&
 					t->next->type == PAIR_BRACKET) {
 				t = t->next;
